@@ -962,3 +962,31 @@ def gen_small(rng, tier):
     pe.sections[1].prd = 0x602
     cases.append([img_line(rng, pe.build(), 0, "s"), "res f32 dump", "res f32 fsck", "res wf manifest"])
     return cases
+
+
+def gen_res_big(rng, tier):
+    """A root directory whose entry counts add up to 65536 / 65537 (the two 16-bit counts of the header are
+    added as wider integers): every named entry shares one name string, every entry resolves to one data entry.
+    Only the iterator histories over the three entry lists: the counts at the 16-bit boundary matter for the
+    lengths the iterators are built with."""
+    cases = []
+    shapes = ((32, 0x8000, 0x8000), (64, 0xFFFF, 2)) if tier == "quick" else ((32, 0x8000, 0x8000), (64, 0xFFFF, 2), (64, 0xFFFF, 1), (32, 1, 0xFFFF), (32, 0xFFFF, 0xFFFF))
+    for bits, nn, ni in shapes:
+        n = nn + ni
+        o_ent, o_name, o_data = 16, 16 + 8 * n, 16 + 8 * n + 8
+        sec = bytearray(o_data + 16 + 16)
+        struct.pack_into("<IIHHHH", sec, 0, 0, 0, 0, 0, nn, ni)
+        for i in range(n):
+            struct.pack_into("<II", sec, o_ent + 8 * i, (0x80000000 | o_name) if i < nn else (i - nn + 1) & 0xFFFF, o_data)
+        struct.pack_into("<HH", sec, o_name, 1, 0x41)
+        va = 0x2000
+        struct.pack_into("<IIII", sec, o_data, va + o_data + 16, 4, 1252, 0)
+        pe = pe_with_rsrc(rng, bytes(sec), bits, va)
+        data = pe.build()
+        kf = "f%d" % bits
+        case = [img_line(rng, data, 0, "e"), "from_bytes " + kf]
+        for so in ("res_all", "res_named", "res_id"):
+            for h in ("count", "len,nth:0xfffe,next,next,next,count", "nth:0x7fff,next,hint", "hint,next,hint,back,len"):
+                case.append("iter %s %s %s" % (kf, so, h))
+        cases.append(case)
+    return cases
